@@ -18,6 +18,22 @@ spec fn offs_spec(orig: u16, base: int, offset: i16) -> Option<u16> {
     let a = base + offset as int;
     if in_user(orig, a) { Some(a as u16) } else { None }
 }
+/// what the helpers may RETURN (C13 confines only writes; read-only commands may look anywhere, so a helper is free to resolve
+/// an address outside user space as long as it is the mathematical sum): `Some(a)` only if a is exactly base + offset, `None`
+/// only if that sum lies outside user space — never a wrapped or truncated address, never a refusal inside user space
+spec fn offs_ok(orig: u16, base: int, offset: i16, r: Option<u16>) -> bool {
+    match r { Some(a) => a as int == base + offset as int, None => !in_user(orig, base + offset as int) }
+}
+spec fn resolve_ok(orig: u16, pc: u16, loc: MemoryLocation, r: Option<u16>) -> bool {
+    match loc {
+        MemoryLocation::Address(a) => r == Some(a),
+        MemoryLocation::PCOffset(o) => offs_ok(orig, pc as int, o, r),
+        MemoryLocation::Label(l) => match sym_index(l.name@) {
+            Some(i) => offs_ok(orig, i as int + orig as int, l.offset, r),
+            None => r is None,
+        },
+    }
+}
 /// the (constant during a session) symbol table seen through resolve_symbol_address: name -> statement index
 uninterp spec fn sym_index(name: Seq<char>) -> Option<u16>;
 spec fn resolve_spec(orig: u16, pc: u16, loc: MemoryLocation) -> Option<u16> {
